@@ -716,6 +716,26 @@ def _total_predicate_near(fn, assign, body):
     return None
 
 
+def _sorted_right_after(fn, local, loop_body):
+    """the first use of `local` after the loop is a sort that is total on the entries (unique key as tie-break)"""
+    end = max([y.get("ln") or 0 for y in walk(loop_body)] or [0])
+    inside = set(id(y) for y in walk(loop_body))
+    first = None
+    for y in walk(fn["body"]):
+        if y.get("k") == "MethodCall" and id(y) not in inside and (y.get("ln") or 0) >= end:
+            r0 = peel_refs(y["recv"])
+            if r0.get("k") == "Path" and r0.get("local") == local:
+                if first is None or (y.get("ln") or 0) < (first.get("ln") or 0):
+                    first = y
+    # any other mention of the local between the loop and that sort (an argument, an index) is a use too
+    if first is None or first["name"] not in SORTS or not sort_is_total(first):
+        return False
+    for y in walk(fn["body"]):
+        if y.get("k") == "Path" and y.get("local") == local and id(y) not in inside and end <= (y.get("ln") or 0) < (first.get("ln") or 0):
+            return False
+    return True
+
+
 def classify_effects(fn, body, loop_ids, node, chain):
     """Order-insensitive bodies only: per-entry updates, keyed inserts into other maps/sets, integer
     accumulation. Anything else that writes state outside the iteration is order-sensitive."""
@@ -801,6 +821,8 @@ def classify_effects(fn, body, loop_ids, node, chain):
             if name in ("push", "push_back", "push_front", "push_str", "append", "insert") and not (is_hash_ty(rt) or is_hash_ty(rat) or "BTree" in rt):
                 if name == "insert" and not re.search(r"Vec<|VecDeque<|String", rt):
                     continue
+                if name in ("push", "push_back") and rl is not None and _sorted_right_after(fn, rl["local"], body):
+                    continue  # collected in hash order, then sorted totally before anything else looks at it
                 problems.append("`%s.%s(..)` appends to a sequence in iteration order" % (r.e(n["recv"])[:40], name))
             elif name in ("assign", "fill", "copy_from_slice", "swap", "add_assign", "sub_assign", "scaled_add", "mul_assign", "div_assign") and (rat or "").startswith("&mut"):
                 if keyed_target(n["recv"], declared):
